@@ -181,6 +181,12 @@ def e2_dv_merge(ctx, num):
     run_scenarios(ctx, [lift.lift_dvmerge(b, i) for i, b in enumerate(behs)], "e2dvmerge", perfile=10, shards=4)
 
 
+def e1_merge_reads(ctx):
+    """E1: a merge as a sequence of storage reads with a transient or permanent fault at every position, twice on one input."""
+    tlc_mc(ctx, "MergeReads", "MC_MergeReads.cfg", workers=4)
+    devs(ctx, "MergeReads", ["DropFirstNextErr", "SwallowDvErr", "CacheFailedDict"], "AllInv")
+
+
 def e1_dv_reader(ctx):
     """E1: multi-field doc-value reader on storage failing inside a call (every read of a load, permanent or transient)."""
     tlc_mc(ctx, "DvReader", "MC_DvReader.cfg", workers=8)
@@ -339,6 +345,7 @@ def plan_C02(ctx):
 
 def plan_C03(ctx):
     e1_merge_algo(ctx)
+    e1_merge_reads(ctx)
     run_family(ctx, "merge_obs", n_of(ctx, 250, 5000), perfile=n_of(ctx, 20, 40), seed_off=3)
     run_family(ctx, "assoc", n_of(ctx, 40, 600), perfile=10, seed_off=4)
     run_family(ctx, "mass_delete", n_of(ctx, 5, 60), perfile=1, seed_off=2)
@@ -552,6 +559,7 @@ def plan_C18(ctx):
 
 
 def plan_C19(ctx):
+    e1_merge_reads(ctx)
     e1_dv_reader(ctx)
     e1_fst_cache(ctx)
     e2_fst_cache(ctx, n_of(ctx, 40, 400))
